@@ -336,6 +336,7 @@ package k8s
 //@   requires pod != nil && validPodPorts(pod)
 //@   modifies *
 //@   ensures [C10] wf: wfCS(res) && fresh(res) && !res.AllowAll
+//@   ensures [C10] kept: allKept() && freshSep(res)
 //@   ensures [C10] tcponly: forall q v1.Protocol, n int :: {iset(res.AllowedProtocols[q].Ports)[n]} ptsP(res, q, n) ==
 //@         (q == "TCP" && (exists k int :: {pod.Ports[k]} 0 <= k && k < len(pod.Ports) && cpProto(pod.Ports[k]) == "TCP" && pod.Ports[k].ContainerPort == n))
 //@   loop 1:
